@@ -63,6 +63,8 @@ type Engine struct {
 	initAlloc      string
 	callOrd        map[*ssa.Function]map[ssa.Instruction]string
 	limitHit       bool
+	specEval       int
+	fdecls         map[string]*frameDecl
 	usedAts        map[*AtSpec]bool
 	modsetCache    map[*ssa.Function]map[string]bool
 }
@@ -428,6 +430,11 @@ func (e *Engine) enterLoopHeader(st *State, li *loopInfo, from *ssa.BasicBlock) 
 				break
 			}
 			env := e.envFor(st, fr, st.old)
+			for _, h := range e.loopHeaps(st, li) {
+				if f := e.frameFormula(st, h); f != "" {
+					e.addObl(st, pre+".preserve.frame."+h, "frame", "frame condition preserved by loop body", f)
+				}
+			}
 			if spec != nil {
 				for _, inv := range spec.Invs {
 					e.addObl(st, pre+".preserve."+inv.Label, "invariant", inv.Src, e.evalBool(st, env, inv.E))
@@ -463,7 +470,18 @@ func (e *Engine) enterLoopHeader(st *State, li *loopInfo, from *ssa.BasicBlock) 
 			e.addObl(st, pre+".entry."+inv.Label, "invariant", inv.Src, e.evalBool(st, env, inv.E))
 		}
 	}
+	hs := e.loopHeaps(st, li)
+	for _, h := range hs {
+		if f := e.frameFormula(st, h); f != "" {
+			e.addObl(st, pre+".entry.frame."+h, "frame", "frame condition holds on loop entry", f)
+		}
+	}
 	e.havocLoop(st, li)
+	for _, h := range hs {
+		if f := e.frameFormula(st, h); f != "" {
+			st.assume(f)
+		}
+	}
 	env = e.envFor(st, fr, st.old)
 	if spec != nil {
 		for _, inv := range spec.Invs {
@@ -652,6 +670,27 @@ func (e *Engine) addrHeaps(addr ssa.Value, heaps map[string]bool) {
 			}
 		}
 	}
+}
+
+// loopHeaps: heap maps the loop body may write (sorted)
+func (e *Engine) loopHeaps(st *State, li *loopInfo) []string {
+	fr := st.top()
+	e.analyzeLoop(fr.fn, li)
+	set := map[string]bool{}
+	for h := range li.heaps {
+		set[h] = true
+	}
+	for _, f := range li.calls {
+		for h := range e.P.modset(e, f) {
+			set[h] = true
+		}
+	}
+	var out []string
+	for h := range set {
+		out = append(out, h)
+	}
+	sort.Strings(out)
+	return out
 }
 
 func (e *Engine) havocLoop(st *State, li *loopInfo) {
